@@ -2,5 +2,629 @@ import PV.Model.Base64
 import PV.Model.Docenc
 import PV.Spec.Base64
 import PV.Spec.Records
+/-
+Helper lemmas for C09 (base64 codec, docenc round trip, index selection).
+-/
+set_option linter.unusedVariables false
 namespace PV.Lemmas.Base64
+open PV.Base64 PV.Spec.Base64 PV.Spec.Records
+
+/-! ## tables -/
+
+theorem tbl_alpha_fin : ∀ i : Fin 64, tbl i.val = alpha i.val := by decide +kernel
+theorem tbl_alpha (i : Nat) (h : i < 64) : tbl i = alpha i := tbl_alpha_fin ⟨i, h⟩
+
+theorem inv_foreign_fin : ∀ n : Fin 256, inAlphabet (UInt8.ofNat n.val) = false → inv (UInt8.ofNat n.val) = -1 := by
+  decide +kernel
+theorem inv_foreign (b : UInt8) (h : inAlphabet b = false) : inv b = -1 := by
+  have := inv_foreign_fin ⟨b.toNat, UInt8.toNat_lt b⟩
+  simp only [UInt8.ofNat_toNat] at this
+  exact this h
+theorem inv_alpha_fin : ∀ i : Fin 64, inv (alpha i.val) = (i.val : Int) := by decide +kernel
+theorem inv_alpha (i : Nat) (h : i < 64) : inv (alpha i) = (i : Int) := inv_alpha_fin ⟨i, h⟩
+theorem alpha_inAlphabet_fin : ∀ i : Fin 64, inAlphabet (alpha i.val) = true := by decide +kernel
+theorem alpha_inAlphabet (i : Nat) (h : i < 64) : inAlphabet (alpha i) = true := alpha_inAlphabet_fin ⟨i, h⟩
+theorem inAlphabet_inv_fin : ∀ n : Fin 256, inAlphabet (UInt8.ofNat n.val) = true → inv (UInt8.ofNat n.val) ≠ -1 := by
+  decide +kernel
+theorem inAlphabet_inv (b : UInt8) (h : inAlphabet b = true) : inv b ≠ -1 := by
+  have := inAlphabet_inv_fin ⟨b.toNat, UInt8.toNat_lt b⟩
+  simp only [UInt8.ofNat_toNat] at this
+  exact this h
+theorem inAlphabet_ne_fin : ∀ n : Fin 256, inAlphabet (UInt8.ofNat n.val) = true →
+    UInt8.ofNat n.val ≠ 61 ∧ UInt8.ofNat n.val ≠ 10 ∧ UInt8.ofNat n.val ≠ 13 := by
+  decide +kernel
+theorem inAlphabet_ne (b : UInt8) (h : inAlphabet b = true) : b ≠ 61 ∧ b ≠ 10 ∧ b ≠ 13 := by
+  have := inAlphabet_ne_fin ⟨b.toNat, UInt8.toNat_lt b⟩
+  simp only [UInt8.ofNat_toNat] at this
+  exact this h
+
+
+/-! ## encoder -/
+
+
+theorem shrAnd_lt (v : Int) (sh m : Nat) (hm : 0 < m) : shrAnd v sh m < m := by
+  unfold shrAnd
+  have : (v / ((2 ^ sh : Nat) : Int)) % (m : Int) < m := Int.emod_lt_of_pos _ (by omega)
+  have : 0 ≤ (v / ((2 ^ sh : Nat) : Int)) % (m : Int) := Int.emod_nonneg _ (by omega)
+  omega
+
+theorem encByte_m6 (s : EncSt) (c : UInt8) (h : s.valb = -6) :
+    encByte s c = { val := wrap32 (s.val * 256 + c.toNat), valb := -4,
+                    out := tbl (shrAnd (wrap32 (s.val * 256 + c.toNat)) 2 64) :: s.out } := by
+  simp [encByte, h, encDrain, encDrainF]
+
+theorem encByte_m4 (s : EncSt) (c : UInt8) (h : s.valb = -4) :
+    encByte s c = { val := wrap32 (s.val * 256 + c.toNat), valb := -2,
+                    out := tbl (shrAnd (wrap32 (s.val * 256 + c.toNat)) 4 64) :: s.out } := by
+  simp [encByte, h, encDrain, encDrainF]
+
+theorem encByte_m2 (s : EncSt) (c : UInt8) (h : s.valb = -2) :
+    encByte s c = { val := wrap32 (s.val * 256 + c.toNat), valb := -6,
+                    out := tbl (shrAnd (wrap32 (s.val * 256 + c.toNat)) 0 64) ::
+                           tbl (shrAnd (wrap32 (s.val * 256 + c.toNat)) 6 64) :: s.out } := by
+  simp [encByte, h, encDrain, encDrainF]
+
+theorem sh1 (x : Int) (a b c : Nat) (ha : a < 256) (hb : b < 256) (hc : c < 256) :
+    shrAnd (wrap32 (x * 256 + a)) 2 64 = (a * 65536 + b * 256 + c) / 262144 := by
+  unfold shrAnd wrap32; simp only [Nat.reducePow]; omega
+
+
+theorem sh2 (x : Int) (a b c : Nat) (ha : a < 256) (hb : b < 256) (hc : c < 256) :
+    shrAnd (wrap32 (wrap32 (x * 256 + a) * 256 + b)) 4 64 = (a * 65536 + b * 256 + c) / 4096 % 64 := by
+  unfold shrAnd wrap32; simp only [Nat.reducePow]; omega
+
+theorem sh3 (x : Int) (a b c : Nat) (ha : a < 256) (hb : b < 256) (hc : c < 256) :
+    shrAnd (wrap32 (wrap32 (wrap32 (x * 256 + a) * 256 + b) * 256 + c)) 6 64 = (a * 65536 + b * 256 + c) / 64 % 64 := by
+  unfold shrAnd wrap32; simp only [Nat.reducePow]; omega
+
+theorem sh4 (x : Int) (a b c : Nat) (ha : a < 256) (hb : b < 256) (hc : c < 256) :
+    shrAnd (wrap32 (wrap32 (wrap32 (x * 256 + a) * 256 + b) * 256 + c)) 0 64 = (a * 65536 + b * 256 + c) % 64 := by
+  unfold shrAnd wrap32; simp only [Nat.reducePow]; omega
+
+theorem sh2' (x : Int) (a : Nat) (ha : a < 256) :
+    shrAnd (wrap32 (wrap32 (x * 256 + a) * 256)) 4 64 = (a * 65536) / 4096 % 64 := by
+  unfold shrAnd wrap32; simp only [Nat.reducePow]; omega
+
+theorem sh3' (x : Int) (a b : Nat) (ha : a < 256) (hb : b < 256) :
+    shrAnd (wrap32 (wrap32 (wrap32 (x * 256 + a) * 256 + b) * 256)) 6 64 = (a * 65536 + b * 256) / 64 % 64 := by
+  unfold shrAnd wrap32; simp only [Nat.reducePow]; omega
+
+theorem enc3 (s : EncSt) (a b c : UInt8) (h : s.valb = -6) :
+    encByte (encByte (encByte s a) b) c =
+      { val := wrap32 (wrap32 (wrap32 (s.val * 256 + a.toNat) * 256 + b.toNat) * 256 + c.toNat), valb := -6,
+        out := alpha ((a.toNat * 65536 + b.toNat * 256 + c.toNat) % 64) ::
+               alpha ((a.toNat * 65536 + b.toNat * 256 + c.toNat) / 64 % 64) ::
+               alpha ((a.toNat * 65536 + b.toNat * 256 + c.toNat) / 4096 % 64) ::
+               alpha ((a.toNat * 65536 + b.toNat * 256 + c.toNat) / 262144) :: s.out } := by
+  have ha := UInt8.toNat_lt a
+  have hb := UInt8.toNat_lt b
+  have hc := UInt8.toNat_lt c
+  have e1 := encByte_m6 s a h
+  have e2 := encByte_m4 (encByte s a) b (by rw [e1])
+  have e3 := encByte_m2 (encByte (encByte s a) b) c (by rw [e2])
+  rw [e3, e2, e1]
+  simp only
+  rw [tbl_alpha _ (shrAnd_lt _ _ _ (by decide)), tbl_alpha _ (shrAnd_lt _ _ _ (by decide)),
+    tbl_alpha _ (shrAnd_lt _ _ _ (by decide)), tbl_alpha _ (shrAnd_lt _ _ _ (by decide))]
+  rw [sh4 _ _ _ _ ha hb hc, sh3 _ _ _ _ ha hb hc, sh2 _ _ _ c.toNat ha hb hc, sh1 _ _ b.toNat c.toNat ha hb hc]
+
+def encFinish (s : EncSt) : List UInt8 :=
+  (encPad (if s.valb > -6 then tbl (shrAnd (wrap32 (s.val * 256)) (s.valb + 8).toNat 64) :: s.out
+    else s.out)).reverse
+
+theorem encode_def (bs : List UInt8) : encode bs = encFinish (bs.foldl encByte ⟨0, -6, []⟩) := rfl
+
+theorem encPad_0 (out : List UInt8) (h : out.length % 4 = 0) : encPad out = out := by
+  simp [encPad, h]
+theorem encPad_2 (out : List UInt8) (h : out.length % 4 = 2) : encPad out = 61 :: 61 :: out := by
+  simp [encPad, h]
+theorem encPad_3 (out : List UInt8) (h : out.length % 4 = 3) : encPad out = 61 :: out := by
+  simp [encPad, h]
+
+theorem enc_fold (bs : List UInt8) : ∀ s : EncSt, s.valb = -6 → s.out.length % 4 = 0 →
+    encFinish (bs.foldl encByte s) = s.out.reverse ++ rfc4648 bs := by
+  fun_induction rfc4648 bs with
+  | case1 a b c r n ih =>
+    intro s h hl
+    simp only [List.foldl_cons]
+    rw [enc3 s a b c h, ih _ rfl (by simp only [List.length_cons]; omega)]
+    simp [n]
+  | case2 a b n =>
+    intro s h hl
+    have ha := UInt8.toNat_lt a
+    have hb := UInt8.toNat_lt b
+    simp only [List.foldl_cons, List.foldl_nil]
+    have e1 := encByte_m6 s a h
+    have e2 := encByte_m4 (encByte s a) b (by rw [e1])
+    rw [e2, e1]
+    simp only [encFinish]
+    simp only [show ((-2 : Int) > -6) = True from by decide, if_true, show ((-2 : Int) + 8).toNat = 6 from rfl]
+    rw [encPad_3 _ (by simp only [List.length_cons]; omega)]
+    rw [tbl_alpha _ (shrAnd_lt _ _ _ (by decide)), tbl_alpha _ (shrAnd_lt _ _ _ (by decide)),
+      tbl_alpha _ (shrAnd_lt _ _ _ (by decide))]
+    rw [sh3' _ _ _ ha hb, sh2 _ _ _ 0 ha hb (by decide), sh1 _ _ b.toNat 0 ha hb (by decide)]
+    simp [n, pad]
+  | case3 a n =>
+    intro s h hl
+    have ha := UInt8.toNat_lt a
+    simp only [List.foldl_cons, List.foldl_nil]
+    rw [encByte_m6 s a h]
+    simp only [encFinish]
+    simp only [show ((-4 : Int) > -6) = True from by decide, if_true, show ((-4 : Int) + 8).toNat = 4 from rfl]
+    rw [encPad_2 _ (by simp only [List.length_cons]; omega)]
+    rw [tbl_alpha _ (shrAnd_lt _ _ _ (by decide)), tbl_alpha _ (shrAnd_lt _ _ _ (by decide))]
+    rw [sh2' _ _ ha, sh1 _ _ 0 0 ha (by decide) (by decide)]
+    simp [n, pad]
+  | case4 =>
+    intro s h hl
+    simp [encFinish, h, encPad_0 _ hl]
+
+
+theorem encode_eq (bs : List UInt8) : encode bs = rfc4648 bs := by
+  rw [encode_def]
+  simpa using enc_fold bs ⟨0, -6, []⟩ rfl rfl
+
+/-! ## decoder -/
+
+theorem alpha_ne_pad (i : Nat) (h : i < 64) : (alpha i == 61) = false := by
+  have := (inAlphabet_ne _ (alpha_inAlphabet i h)).1
+  simpa using this
+
+theorem decLoop_lt (i : Nat) (h : i < 64) (r : List UInt8) (val valb : Int) (out : List UInt8)
+    (hv : valb + 6 < 0) :
+    decLoop (alpha i :: r) val valb out = decLoop r (wrap32 (val * 64 + i)) (valb + 6) out := by
+  have h2 : ¬ (valb + 6 ≥ 0) := by omega
+  simp [decLoop, alpha_ne_pad i h, inv_alpha i h, h2]
+
+theorem decLoop_ge (i : Nat) (h : i < 64) (r : List UInt8) (val valb : Int) (out : List UInt8)
+    (hv : valb + 6 ≥ 0) :
+    decLoop (alpha i :: r) val valb out =
+      decLoop r (wrap32 (val * 64 + i)) (valb + 6 - 8)
+        (UInt8.ofNat (shrAnd (wrap32 (val * 64 + i)) (valb + 6).toNat 256) :: out) := by
+  simp [decLoop, alpha_ne_pad i h, inv_alpha i h, hv]
+
+
+theorem dec2 (i0 i1 : Nat) (h0 : i0 < 64) (h1 : i1 < 64) (r : List UInt8) (val : Int) (out : List UInt8) :
+    decLoop (alpha i0 :: alpha i1 :: r) val (-8) out =
+      decLoop r (wrap32 (wrap32 (val * 64 + i0) * 64 + i1)) (-4)
+        (UInt8.ofNat (shrAnd (wrap32 (wrap32 (val * 64 + i0) * 64 + i1)) 4 256) :: out) := by
+  rw [decLoop_lt _ h0 _ _ _ _ (by decide), decLoop_ge _ h1 _ _ _ _ (by decide)]
+  rfl
+
+theorem dec3 (i0 i1 i2 : Nat) (h0 : i0 < 64) (h1 : i1 < 64) (h2 : i2 < 64) (r : List UInt8) (val : Int) (out : List UInt8) :
+    decLoop (alpha i0 :: alpha i1 :: alpha i2 :: r) val (-8) out =
+      decLoop r (wrap32 (wrap32 (wrap32 (val * 64 + i0) * 64 + i1) * 64 + i2)) (-6)
+        (UInt8.ofNat (shrAnd (wrap32 (wrap32 (wrap32 (val * 64 + i0) * 64 + i1) * 64 + i2)) 2 256) ::
+         UInt8.ofNat (shrAnd (wrap32 (wrap32 (val * 64 + i0) * 64 + i1)) 4 256) :: out) := by
+  rw [dec2 _ _ h0 h1, decLoop_ge _ h2 _ _ _ _ (by decide)]
+  rfl
+
+theorem dec4 (i0 i1 i2 i3 : Nat) (h0 : i0 < 64) (h1 : i1 < 64) (h2 : i2 < 64) (h3 : i3 < 64)
+    (r : List UInt8) (val : Int) (out : List UInt8) :
+    decLoop (alpha i0 :: alpha i1 :: alpha i2 :: alpha i3 :: r) val (-8) out =
+      decLoop r (wrap32 (wrap32 (wrap32 (wrap32 (val * 64 + i0) * 64 + i1) * 64 + i2) * 64 + i3)) (-8)
+        (UInt8.ofNat (shrAnd (wrap32 (wrap32 (wrap32 (wrap32 (val * 64 + i0) * 64 + i1) * 64 + i2) * 64 + i3)) 0 256) ::
+         UInt8.ofNat (shrAnd (wrap32 (wrap32 (wrap32 (val * 64 + i0) * 64 + i1) * 64 + i2)) 2 256) ::
+         UInt8.ofNat (shrAnd (wrap32 (wrap32 (val * 64 + i0) * 64 + i1)) 4 256) :: out) := by
+  rw [dec3 _ _ _ h0 h1 h2, decLoop_ge _ h3 _ _ _ _ (by decide)]
+  rfl
+
+theorem d1 (x : Int) (a b c : Nat) (ha : a < 256) (hb : b < 256) (hc : c < 256) :
+    shrAnd (wrap32 (wrap32 (x * 64 + ((a * 65536 + b * 256 + c) / 262144 : Nat)) * 64 +
+      ((a * 65536 + b * 256 + c) / 4096 % 64 : Nat))) 4 256 = a := by
+  unfold shrAnd wrap32; simp only [Nat.reducePow]; omega
+
+theorem d2 (x : Int) (a b c : Nat) (ha : a < 256) (hb : b < 256) (hc : c < 256) :
+    shrAnd (wrap32 (wrap32 (wrap32 (x * 64 + ((a * 65536 + b * 256 + c) / 262144 : Nat)) * 64 +
+      ((a * 65536 + b * 256 + c) / 4096 % 64 : Nat)) * 64 + ((a * 65536 + b * 256 + c) / 64 % 64 : Nat))) 2 256 = b := by
+  unfold shrAnd wrap32; simp only [Nat.reducePow]; omega
+
+theorem d3 (x : Int) (a b c : Nat) (ha : a < 256) (hb : b < 256) (hc : c < 256) :
+    shrAnd (wrap32 (wrap32 (wrap32 (wrap32 (x * 64 + ((a * 65536 + b * 256 + c) / 262144 : Nat)) * 64 +
+      ((a * 65536 + b * 256 + c) / 4096 % 64 : Nat)) * 64 + ((a * 65536 + b * 256 + c) / 64 % 64 : Nat)) * 64 +
+      ((a * 65536 + b * 256 + c) % 64 : Nat))) 0 256 = c := by
+  unfold shrAnd wrap32; simp only [Nat.reducePow]; omega
+
+
+/-- the symbols of the RFC 4648 encoding, without padding -/
+def syms : List UInt8 → List UInt8
+  | a :: b :: c :: r =>
+    alpha ((a.toNat * 65536 + b.toNat * 256 + c.toNat) / 262144) ::
+    alpha ((a.toNat * 65536 + b.toNat * 256 + c.toNat) / 4096 % 64) ::
+    alpha ((a.toNat * 65536 + b.toNat * 256 + c.toNat) / 64 % 64) ::
+    alpha ((a.toNat * 65536 + b.toNat * 256 + c.toNat) % 64) :: syms r
+  | [a, b] =>
+    [alpha ((a.toNat * 65536 + b.toNat * 256 + 0) / 262144),
+     alpha ((a.toNat * 65536 + b.toNat * 256 + 0) / 4096 % 64),
+     alpha ((a.toNat * 65536 + b.toNat * 256 + 0) / 64 % 64)]
+  | [a] =>
+    [alpha ((a.toNat * 65536 + 0 * 256 + 0) / 262144), alpha ((a.toNat * 65536 + 0 * 256 + 0) / 4096 % 64)]
+  | [] => []
+
+def npad : List UInt8 → Nat
+  | _ :: _ :: _ :: r => npad r
+  | [_, _] => 1
+  | [_] => 2
+  | [] => 0
+
+theorem rfc_eq_syms (bs : List UInt8) : rfc4648 bs = syms bs ++ List.replicate (npad bs) 61 := by
+  fun_induction rfc4648 bs with
+  | case1 a b c r n ih => simp [syms, npad, ih, n]
+  | case2 a b n => simp [syms, npad, n, pad]
+  | case3 a n => simp [syms, npad, n, pad, List.replicate]
+  | case4 => simp [syms, npad]
+
+theorem syms_alpha (bs : List UInt8) : ∀ x ∈ syms bs, inAlphabet x = true := by
+  fun_induction syms bs with
+  | case1 a b c r ih =>
+    have ha := UInt8.toNat_lt a
+    have hb := UInt8.toNat_lt b
+    have hc := UInt8.toNat_lt c
+    intro x hx
+    simp only [List.mem_cons] at hx
+    rcases hx with rfl | rfl | rfl | rfl | hx
+    · exact alpha_inAlphabet _ (by omega)
+    · exact alpha_inAlphabet _ (by omega)
+    · exact alpha_inAlphabet _ (by omega)
+    · exact alpha_inAlphabet _ (by omega)
+    · exact ih x hx
+  | case2 a b =>
+    have ha := UInt8.toNat_lt a
+    have hb := UInt8.toNat_lt b
+    intro x hx
+    simp only [List.mem_cons, List.not_mem_nil, or_false] at hx
+    rcases hx with rfl | rfl | rfl
+    · exact alpha_inAlphabet _ (by omega)
+    · exact alpha_inAlphabet _ (by omega)
+    · exact alpha_inAlphabet _ (by omega)
+  | case3 a =>
+    have ha := UInt8.toNat_lt a
+    intro x hx
+    simp only [List.mem_cons, List.not_mem_nil, or_false] at hx
+    rcases hx with rfl | rfl
+    · exact alpha_inAlphabet _ (by omega)
+    · exact alpha_inAlphabet _ (by omega)
+  | case4 => intro x hx; cases hx
+
+theorem npad_le (bs : List UInt8) : npad bs ≤ (syms bs).length := by
+  fun_induction syms bs <;> simp [npad] <;> omega
+
+theorem dec_syms (bs : List UInt8) : ∀ (rest : List UInt8) (val : Int) (out : List UInt8),
+    (∀ v vb o, decLoop rest v vb o = .ok o.reverse) →
+    decLoop (syms bs ++ rest) val (-8) out = .ok (out.reverse ++ bs) := by
+  fun_induction syms bs with
+  | case1 a b c r ih =>
+    intro rest val out hr
+    have ha := UInt8.toNat_lt a
+    have hb := UInt8.toNat_lt b
+    have hc := UInt8.toNat_lt c
+    simp only [List.cons_append]
+    rw [dec4 _ _ _ _ (by omega) (by omega) (by omega) (by omega), ih _ _ _ hr]
+    rw [d1 _ _ _ _ ha hb hc, d2 _ _ _ _ ha hb hc, d3 _ _ _ _ ha hb hc]
+    simp
+  | case2 a b =>
+    intro rest val out hr
+    have ha := UInt8.toNat_lt a
+    have hb := UInt8.toNat_lt b
+    simp only [List.cons_append, List.nil_append]
+    rw [dec3 _ _ _ (by omega) (by omega) (by omega), hr]
+    rw [d1 _ _ _ _ ha hb (by decide), d2 _ _ _ _ ha hb (by decide)]
+    simp
+  | case3 a =>
+    intro rest val out hr
+    have ha := UInt8.toNat_lt a
+    simp only [List.cons_append, List.nil_append]
+    rw [dec2 _ _ (by omega) (by omega), hr]
+    rw [d1 _ _ _ _ ha (by decide) (by decide)]
+    simp
+  | case4 =>
+    intro rest val out hr
+    simp [hr]
+
+
+theorem decLoop_pads (k : Nat) (v vb : Int) (o : List UInt8) :
+    decLoop (List.replicate k 61) v vb o = .ok o.reverse := by
+  cases k <;> simp [decLoop, List.replicate]
+
+theorem takeWhile_none {α : Type} (p : α → Bool) (l : List α) (h : ∀ x ∈ l, p x = false) :
+    l.takeWhile p = [] := by
+  cases l with
+  | nil => rfl
+  | cons a r => simp [List.takeWhile, h a (by simp)]
+
+theorem takeWhile_rev_nopad (l : List UInt8) (h : ∀ x ∈ l, x ≠ 61) :
+    l.reverse.takeWhile (· == 61) = [] :=
+  takeWhile_none _ _ (fun x hx => by simpa using h x (by simpa using hx))
+
+theorem dropWhile_rev_nopad (l : List UInt8) (h : ∀ x ∈ l, x ≠ 61) :
+    l.reverse.dropWhile (· == 61) = l.reverse := by
+  have := List.takeWhile_append_dropWhile (p := (· == (61 : UInt8))) (l := l.reverse)
+  rw [takeWhile_rev_nopad l h] at this
+  simpa using this
+
+theorem countPadding_app (l : List UInt8) (k : Nat) (h : ∀ x ∈ l, x ≠ 61) :
+    countPadding (l ++ List.replicate k 61) = k := by
+  unfold countPadding
+  rw [List.reverse_append, List.reverse_replicate, List.takeWhile_append_of_pos (by simp),
+    takeWhile_rev_nopad l h]
+  simp
+
+theorem stripPad_app (l : List UInt8) (k : Nat) (h : ∀ x ∈ l, x ≠ 61) :
+    stripPad (l ++ List.replicate k 61) = l := by
+  unfold stripPad
+  rw [List.reverse_append, List.reverse_replicate, List.dropWhile_append_of_pos (by simp [pad]),
+    show (fun x : UInt8 => x == pad) = (· == 61) from rfl, dropWhile_rev_nopad l h]
+  simp
+
+theorem syms_ne_pad (bs : List UInt8) : ∀ x ∈ syms bs, x ≠ 61 :=
+  fun x hx => (inAlphabet_ne x (syms_alpha bs x hx)).1
+
+theorem decode_rfc (bs : List UInt8) : decode (rfc4648 bs) = .ok bs := by
+  rw [rfc_eq_syms]
+  unfold decode
+  rw [countPadding_app _ _ (syms_ne_pad bs)]
+  have := npad_le bs
+  rw [if_neg (by simp only [List.length_append, List.length_replicate]; omega)]
+  simpa using dec_syms bs (List.replicate (npad bs) 61) 0 [] (decLoop_pads _)
+
+theorem decode_rfc_stripped (bs : List UInt8) : decode (stripPad (rfc4648 bs)) = .ok bs := by
+  rw [rfc_eq_syms, stripPad_app _ _ (syms_ne_pad bs)]
+  unfold decode
+  have := countPadding_app (syms bs) 0 (syms_ne_pad bs)
+  simp only [List.replicate_zero, List.append_nil] at this
+  rw [this, if_neg (by omega)]
+  simpa using dec_syms bs [] 0 [] (decLoop_pads 0)
+
+
+/-! ## foreign bytes / alphabet-only text -/
+
+theorem decLoop_foreign (s : List UInt8) : ∀ (val valb : Int) (out : List UInt8),
+    (∃ b ∈ s.takeWhile (· != 61), inAlphabet b = false) → ∀ o, decLoop s val valb out ≠ .ok o := by
+  induction s with
+  | nil => intro val valb out h; simp at h
+  | cons c r ih =>
+    intro val valb out h o
+    by_cases hc : c = 61
+    · subst hc; simp [List.takeWhile] at h
+    · have hc' : (c != 61) = true := by simpa using hc
+      have hc'' : (c == 61) = false := by simpa using hc
+      simp only [List.takeWhile_cons, hc', if_true] at h
+      obtain ⟨b, hb, hf⟩ := h
+      rw [decLoop]
+      simp only [hc'', Bool.false_eq_true, if_false]
+      by_cases hi : inv c = -1
+      · simp [hi]
+      · have hi' : (inv c == -1) = false := by simpa using hi
+        simp only [hi', Bool.false_eq_true, if_false]
+        have hbr : ∃ b ∈ r.takeWhile (· != 61), inAlphabet b = false := by
+          rcases List.mem_cons.mp hb with rfl | hb
+          · exact absurd (inv_foreign _ hf) hi
+          · exact ⟨b, hb, hf⟩
+        split
+        · exact ih _ _ _ hbr o
+        · exact ih _ _ _ hbr o
+
+theorem decLoop_alpha (s : List UInt8) : ∀ (val valb : Int) (out : List UInt8),
+    (∀ b ∈ s.takeWhile (· != 61), inAlphabet b = true) → ∃ o, decLoop s val valb out = .ok o := by
+  induction s with
+  | nil => intro val valb out h; exact ⟨out.reverse, by simp [decLoop]⟩
+  | cons c r ih =>
+    intro val valb out h
+    by_cases hc : c = 61
+    · subst hc; exact ⟨out.reverse, by simp [decLoop]⟩
+    · have hc' : (c != 61) = true := by simpa using hc
+      have hc'' : (c == 61) = false := by simpa using hc
+      simp only [List.takeWhile_cons, hc', if_true] at h
+      have hi : inv c ≠ -1 := inAlphabet_inv c (h c (by simp))
+      have hi' : (inv c == -1) = false := by simpa using hi
+      rw [decLoop]
+      simp only [hc'', hi', Bool.false_eq_true, if_false]
+      have hr : ∀ b ∈ r.takeWhile (· != 61), inAlphabet b = true := fun b hb => h b (List.mem_cons_of_mem _ hb)
+      split
+      · exact ih _ _ _ hr
+      · exact ih _ _ _ hr
+
+
+/-! ## records and docenc -/
+
+theorem splitGo_record (delim : UInt8) (sc : Bool) (l : List UInt8) (h : delim ∉ l) :
+    ∀ (rest cur : List UInt8), splitGo delim sc (l ++ delim :: rest) cur =
+      stripOneCr sc (cur.reverse ++ l) :: splitGo delim sc rest [] := by
+  induction l with
+  | nil => intro rest cur; simp [splitGo]
+  | cons a l ih =>
+    intro rest cur
+    have h' : delim ≠ a ∧ delim ∉ l := by simpa using h
+    have ha : (a == delim) = false := by simpa using (Ne.symm h'.1)
+    simp only [List.cons_append, splitGo, ha, Bool.false_eq_true, if_false]
+    rw [ih h'.2]
+    simp
+
+theorem splitRecords_flatMap (delim : UInt8) (sc : Bool) (rs : List (List UInt8))
+    (h : ∀ r ∈ rs, delim ∉ r) :
+    splitRecords delim sc (rs.flatMap (· ++ [delim])) = rs.map (stripOneCr sc) := by
+  unfold splitRecords
+  induction rs with
+  | nil => simp [splitGo]
+  | cons r rs ih =>
+    simp only [List.flatMap_cons, List.append_assoc, List.singleton_append, List.map_cons]
+    rw [splitGo_record delim sc r (h r (by simp)), ih (fun r' hr' => h r' (List.mem_cons_of_mem _ hr'))]
+    simp
+
+theorem stripOneCr_false (r : List UInt8) : stripOneCr false r = r := by simp [stripOneCr]
+
+theorem stripOneCr_true (r : List UInt8) (h : (13 : UInt8) ∉ r) : stripOneCr true r = r := by
+  unfold stripOneCr
+  rw [if_neg]
+  intro hh
+  simp only [Bool.true_and, beq_iff_eq] at hh
+  exact h (List.mem_of_getLast? hh)
+
+theorem encode_chars (d : List UInt8) : ∀ x ∈ encode d, x ≠ 10 ∧ x ≠ 13 := by
+  rw [encode_eq, rfc_eq_syms]
+  intro x hx
+  rcases List.mem_append.mp hx with hx | hx
+  · exact (inAlphabet_ne x (syms_alpha d x hx)).2
+  · have := List.eq_of_mem_replicate hx
+    subst this
+    decide
+
+theorem decode_encode' (bs : List UInt8) : decode (encode bs) = .ok bs := by
+  rw [encode_eq]; exact decode_rfc bs
+
+theorem split_encoded (ds : List (List UInt8)) :
+    splitRecords 10 true (unlines (ds.map encode)) = ds.map encode := by
+  unfold unlines
+  rw [splitRecords_flatMap]
+  · rw [List.map_map]
+    apply List.map_congr_left
+    intro d _
+    exact stripOneCr_true _ (fun hm => (encode_chars d _ hm).2 rfl)
+  · intro r hr hm
+    obtain ⟨d, _, rfl⟩ := List.mem_map.mp hr
+    exact (encode_chars d _ hm).1 rfl
+
+theorem decodeLines_encoded (sep : UInt8) (ds : List (List UInt8)) :
+    PV.Docenc.decodeLines sep (ds.map encode) = some (ds.flatMap (· ++ [sep])) := by
+  induction ds with
+  | nil => simp [PV.Docenc.decodeLines]
+  | cons d ds ih =>
+    simp only [List.map_cons, PV.Docenc.decodeLines, decode_encode', ih]
+    simp
+
+theorem selectFrom_nil {α : Type} (ds : List α) : ∀ idx, PV.Docenc.selectFrom idx [] ds = ds := by
+  induction ds with
+  | nil => intro idx; simp [PV.Docenc.selectFrom]
+  | cons d ds ih => intro idx; simp [PV.Docenc.selectFrom, ih]
+
+theorem select_nil {α : Type} (ds : List α) : PV.Docenc.select [] ds = ds := selectFrom_nil ds 0
+
+theorem docsNl_doc (ls : List (List UInt8)) (h : ∀ l ∈ ls, l ≠ [] ∧ (10 : UInt8) ∉ l) :
+    ∀ (rest cur : List UInt8),
+      PV.Docenc.docsNl (splitGo 10 false (unlines ls ++ 10 :: rest) []) cur =
+        (cur ++ unlines ls) :: PV.Docenc.docsNl (splitGo 10 false rest []) [] := by
+  induction ls with
+  | nil =>
+    intro rest cur
+    simp [unlines, splitGo, stripOneCr, PV.Docenc.docsNl]
+  | cons l ls ih =>
+    intro rest cur
+    have hl := h l (by simp)
+    have hls : ∀ l' ∈ ls, l' ≠ [] ∧ (10 : UInt8) ∉ l' := fun l' hl' => h l' (List.mem_cons_of_mem _ hl')
+    have e : unlines (l :: ls) ++ 10 :: rest = l ++ 10 :: (unlines ls ++ 10 :: rest) := by
+      simp [unlines]
+    rw [e, splitGo_record 10 false l hl.2, stripOneCr_false]
+    have hne : (([] : List UInt8).reverse ++ l).isEmpty = false := by
+      simp [hl.1]
+    rw [PV.Docenc.docsNl, hne]
+    simp only [Bool.false_eq_true, if_false]
+    rw [ih hls]
+    simp [unlines]
+
+theorem docsNl_docs (ds : List (List UInt8))
+    (h : ∀ d ∈ ds, ∃ ls : List (List UInt8), (∀ l ∈ ls, l ≠ [] ∧ (10 : UInt8) ∉ l) ∧ d = unlines ls) :
+    PV.Docenc.docsNl (splitRecords 10 false (ds.flatMap (· ++ [10]))) [] = ds := by
+  unfold splitRecords
+  induction ds with
+  | nil => simp [splitGo, PV.Docenc.docsNl]
+  | cons d ds ih =>
+    obtain ⟨ls, hls, hd⟩ := h d (by simp)
+    subst hd
+    simp only [List.flatMap_cons, List.append_assoc, List.singleton_append]
+    rw [docsNl_doc ls hls, ih (fun d' hd' => h d' (List.mem_cons_of_mem _ hd'))]
+    simp
+
+
+/-! ## index selection -/
+
+theorem filterMap_congr' {α β : Type} (f g : α → Option β) (l : List α) (h : ∀ x ∈ l, f x = g x) :
+    l.filterMap f = l.filterMap g := by
+  induction l with
+  | nil => rfl
+  | cons a l ih =>
+    rw [List.filterMap_cons, List.filterMap_cons, h a (by simp),
+      ih (fun x hx => h x (List.mem_cons_of_mem _ hx))]
+
+theorem filterMap_shift {α : Type} (d : α) (ds : List α) (idx : Nat) (ind : List Nat)
+    (h : ∀ i ∈ ind, idx + 1 < i) :
+    ind.filterMap (fun i => (d :: ds)[i - idx - 1]?) = ind.filterMap (fun i => ds[i - (idx + 1) - 1]?) := by
+  apply filterMap_congr'
+  intro i hi
+  have := h i hi
+  have e : i - idx - 1 = (i - (idx + 1) - 1) + 1 := by omega
+  rw [e, List.getElem?_cons_succ]
+
+theorem selectFrom'_spec {α : Type} (ds : List α) : ∀ (idx : Nat) (ind : List Nat),
+    (∀ i ∈ ind, idx < i) → ind.Pairwise (· < ·) →
+    PV.Docenc.selectFrom.selectFrom' idx ind ds = ind.filterMap (fun i => ds[i - idx - 1]?) := by
+  induction ds with
+  | nil => intro idx ind _ _; cases ind <;> simp [PV.Docenc.selectFrom.selectFrom']
+  | cons d ds ih =>
+    intro idx ind hgt hs
+    cases ind with
+    | nil => simp [PV.Docenc.selectFrom.selectFrom']
+    | cons i rest =>
+      have hi : idx < i := hgt i (by simp)
+      have hrest : ∀ j ∈ rest, i < j := (List.pairwise_cons.mp hs).1
+      have hs' : rest.Pairwise (· < ·) := (List.pairwise_cons.mp hs).2
+      rw [PV.Docenc.selectFrom.selectFrom']
+      by_cases hne : i = idx + 1
+      · subst hne
+        simp only [bne_self_eq_false, Bool.false_eq_true, if_false]
+        cases rest with
+        | nil =>
+          have e : idx + 1 - idx - 1 = 0 := by omega
+          simp only [List.isEmpty_nil, if_true, List.filterMap_cons, List.filterMap_nil, e, List.getElem?_cons_zero]
+        | cons j rest' =>
+          simp only [List.isEmpty_cons, Bool.false_eq_true, if_false]
+          have e : idx + 1 - idx - 1 = 0 := by omega
+          rw [ih _ _ hrest hs', ← filterMap_shift d ds idx _ hrest]
+          conv => rhs; rw [List.filterMap_cons]
+          simp only [e, List.getElem?_cons_zero]
+      · have hb : (i != idx + 1) = true := by simpa using hne
+        simp only [hb, if_true]
+        have hgt' : ∀ j ∈ i :: rest, idx + 1 < j := by
+          intro j hj
+          rcases List.mem_cons.mp hj with rfl | hj
+          · omega
+          · have := hrest j hj; omega
+        rw [ih _ _ hgt' hs, filterMap_shift d ds idx _ hgt']
+
+theorem selectFrom_spec {α : Type} (ds : List α) : ∀ (idx : Nat) (ind : List Nat), ind ≠ [] →
+    (∀ i ∈ ind, idx < i) → ind.Pairwise (· < ·) →
+    PV.Docenc.selectFrom idx ind ds = ind.filterMap (fun i => ds[i - idx - 1]?) := by
+  induction ds with
+  | nil => intro idx ind _ _ _; simp [PV.Docenc.selectFrom]
+  | cons d ds ih =>
+    intro idx ind hne hgt hs
+    cases ind with
+    | nil => exact absurd rfl hne
+    | cons i rest =>
+      have hi : idx < i := hgt i (by simp)
+      have hrest : ∀ j ∈ rest, i < j := (List.pairwise_cons.mp hs).1
+      have hs' : rest.Pairwise (· < ·) := (List.pairwise_cons.mp hs).2
+      rw [PV.Docenc.selectFrom]
+      by_cases hne : i = idx + 1
+      · subst hne
+        simp only [bne_self_eq_false, Bool.false_eq_true, if_false]
+        cases rest with
+        | nil =>
+          have e : idx + 1 - idx - 1 = 0 := by omega
+          simp only [List.isEmpty_nil, if_true, List.filterMap_cons, List.filterMap_nil, e, List.getElem?_cons_zero]
+        | cons j rest' =>
+          simp only [List.isEmpty_cons, Bool.false_eq_true, if_false]
+          have e : idx + 1 - idx - 1 = 0 := by omega
+          rw [selectFrom'_spec _ _ _ hrest hs', ← filterMap_shift d ds idx _ hrest]
+          conv => rhs; rw [List.filterMap_cons]
+          simp only [e, List.getElem?_cons_zero]
+      · have hb : (i != idx + 1) = true := by simpa using hne
+        simp only [hb, if_true]
+        have hgt' : ∀ j ∈ i :: rest, idx + 1 < j := by
+          intro j hj
+          rcases List.mem_cons.mp hj with rfl | hj
+          · omega
+          · have := hrest j hj; omega
+        rw [ih _ _ (by simp) hgt' hs, filterMap_shift d ds idx _ hgt']
+
+
 end PV.Lemmas.Base64
